@@ -82,12 +82,18 @@ fn pick_token_with(rng: &mut Rng, dict: &[String]) -> String {
         let w = rng.pick(dict).clone();
         let tail = pick_token(rng);
         let tail: String = tail.chars().take(12).collect();
-        return match rng.below(4) {
+        let mut t = match rng.below(4) {
             0 => w,
             1 => format!("{w}{tail}"),
             2 => format!("{tail}{w}"),
             _ => format!("{w}{w}{tail}"),
         };
+        // stay inside the domain: text ending in NUL cannot be carried by the format (trailing NUL is padding)
+        while t.ends_with('\0') {
+            t.pop();
+            t.push('x');
+        }
+        return t;
     }
     pick_token(rng)
 }
